@@ -145,6 +145,9 @@ func symTree(paths []string) *verifTree {
 
 var verifOpenFault bool
 var verifCopyReadFault bool
+
+// verifWantCopyFault: the exploration includes a COPY whose source cannot be read.
+var verifWantCopyFault bool
 var verifFS *verifTree
 var verifHandles map[*os.File]int
 
